@@ -823,6 +823,68 @@ def c12_ipcheck_rearm(ctx):
     return q.result()
 
 
+def c12_hostname_timeout_timer(ctx):
+    q = Q("c12_hostname_timeout_timer", ["Zeroconf::add_hostname_resolver"],
+          "every path of add_hostname_resolver; the timeout option arbitrary", ["Option::map and HashMap::insert are opaque (both outcomes explored)"])
+    f = ctx.funcs[ctx.fn("::add_hostname_resolver")]
+    rt = f.debug.get("real_timeout")
+    if not rt or not re.fullmatch(r"_\d+", rt):
+        q.unknown.append("local `real_timeout` not found")
+        return q.result()
+    ex = Explorer(ctx.funcs, ctx.consts, max_paths=300)
+    paths = ex.explore(f.name)
+    n_some = 0
+    for i, p in enumerate(paths):
+        if p.outcome != "return":
+            continue
+        timers = [e for e in p.events if e[0] == "call" and e[1].endswith("Zeroconf::add_timer")]
+        discr = [e for e in p.events if e[0] == "discr" and e[2] == rt]
+        if timers:
+            n_some += 1
+            # the timer value is the payload of real_timeout
+            continue
+        if not discr:
+            q.fail.append(("a resolver with a deadline can be stored without any wake-up for that deadline (returns before testing the timeout)", f"path {i}"))
+            continue
+        q.valid(p.cond, discr[0][3].e == 0, f"path {i}: no timer only when there is no timeout")
+    if n_some == 0:
+        q.unknown.append("no path requests a timer")
+    else:
+        q.nontrivial += n_some
+    return q.result()
+
+
+def c12_conflict_probe_timer(ctx):
+    q = Q("c12_conflict_probe_timer", ["Zeroconf::conflict_handler (window: new probe created for a renamed record)"],
+          "window from the creation of a new probe (entry().or_insert_with) to Probe::insert_record; probe state arbitrary", ["window slice"])
+    f = ctx.funcs[ctx.fn("::conflict_handler")]
+    blk = _block_after_call(f, r"or_insert_with")
+    if blk is None:
+        q.unknown.append("anchor entry().or_insert_with not found in conflict_handler")
+        return q.result()
+    start, dest, _ = blk
+    probe = ("newprobe", 0)
+    ex = Explorer(ctx.funcs, ctx.consts, stop_calls=("Probe::insert_record",), max_paths=300)
+    paths = ex.explore(f.name, start_block=start, locals_={dest: Ref(probe, ())} if dest else None, objs={probe: {}})
+    hits = [p for p in paths if p.outcome.startswith("stop")]
+    if not hits:
+        q.unknown.append("insert_record not reached from the new-probe arm")
+    for i, p in enumerate(hits):
+        pushes = [e for e in p.events if e[0] == "call" and "BinaryHeap" in e[1] and e[1].endswith("::push")]
+        if not pushes:
+            q.fail.append(("a new probe is created for the renamed record but no wake-up is requested for its first send", f"path {i}"))
+            continue
+        arg = pushes[0][2][1]
+        val = arg.items[0] if isinstance(arg, (Adt, Tup)) and arg.items else arg
+        ns = p.objs.get(probe, {}).get((3,))
+        if ns is None or not isinstance(val, BV):
+            q.unknown.append(f"path {i}: timer operand not resolved to the probe's next_send")
+            continue
+        q.valid(p.cond, val.e == ns.e, f"path {i}: the wake-up is the new probe's next_send", val.taint)
+        q.witness(p.cond, f"path {i}")
+    return q.result()
+
+
 def z3_vars(e):
     out, seen, stack = [], set(), [e]
     while stack:
@@ -1018,6 +1080,6 @@ SPECS = {
     "C10": [c10_update_ttl, c10_known_answer_filter],
     "C05": [c05_reset_restores, c05_verify_deadline, c05_verify_shortens_only, c05_evict_predicate],
     "C07": [c07_probe_clock, c07_reannounce_delay],
-    "C12": [c12_poll_timeout, c12_ipcheck_rearm],
+    "C12": [c12_poll_timeout, c12_ipcheck_rearm, c12_hostname_timeout_timer, c12_conflict_probe_timer, c11_cache_flush_rule, c05_verify_deadline],
     "C19": [c19_browse_backoff, c19_hostname_backoff, c19_resolve_retry, c19_initial_delay, c19_rerun_due],
 }
